@@ -45,7 +45,7 @@ def task_group_level(pr, repo):
             mol = record('mol', None, options=opts)
             conf = record('conf', repo.cls(CCn), groups=[], molecular_container=mol, options=opts, parameters=record('P', None))
             at = record('at', A, chain_id=atom_chain, res_num=5, icode=' ', type='atom', molecular_container=mol)
-            g = record('g', repo.cls('propka.group.Group'), atom=at)
+            g = record('g', repo.cls('propka.group.Group'), atom=at, interaction_atoms_for_acids=[], interaction_atoms_for_bases=[])
             ex.call_function(fi, [g], self_obj=conf)
             ctx.oblige('GL[-c %r, atom chain %r]: the group of an atom the reader let through is initialised and kept' % (chains, atom_chain),
                        len(seen) == 1 and seen[0] is g and conf.attrs['groups'] == [g])
@@ -115,17 +115,32 @@ def bounded(pr):
     from . import native
     ev, viol, classes = 0, [], set()
     # 4DFR: the hetero groups of chain A follow the records of chain B (a chain's records need not be contiguous)
-    cases = [('1HPX', ['A']), ('1HPX', ['B']), ('3SGB-subset', ['E']), ('3SGB-subset', ['I']), ('4DFR', ['A'])]
+    cases = [('1HPX', ['A']), ('1HPX', ['B']), ('3SGB-subset', ['E']), ('3SGB-subset', ['I']), ('4DFR', ['A']),
+             ('1HPX', ['B', 'A']), ('1HPX:blankB', [' ']), ('1HPX:blankB', [' ', 'A'])]
     if pr.tier == 'thorough':
         cases += [('3SGB', ['E']), ('3SGB', ['I']), ('3SGB', ['E', 'I']), ('1HPX', ['A', 'B'])]
     variants = ['asis', 'noter', 'lower', 'split']
     for name, sel in cases:
-        base = native.pdb_lines(name)
-        for v in (variants if name != '4DFR' else ['asis']):
+        base = native.pdb_lines(name.split(':')[0])
+        if name.endswith(':blankB'):
+            base = [(l[:21] + ' ' + l[22:]) if l[:6] in ('ATOM  ', 'HETATM') and l[21] == 'B' else l for l in base]
+        for v in (variants if name not in ('4DFR', '1HPX:blankB') and len(sel) == 1 else ['asis', 'interleave']):
             lines = list(base)
             s = list(sel)
             if v == 'noter':
                 lines = [l for l in lines if not l.startswith('TER') and l[12:16] != ' OXT']
+            if v == 'interleave':
+                # records of an UNSELECTED chain (a hetero residue with its own chain id) in the middle of a selected chain, no TER
+                mine = [i for i, l in enumerate(lines) if l[:6] == 'ATOM  ' and l[21] == sel[0]]
+                if mine:
+                    mid = mine[len(mine) // 2]
+                    while lines[mid][22:27] == lines[mid - 1][22:27]:
+                        mid += 1
+                        if mid >= len(lines) or lines[mid][:6] != 'ATOM  ':
+                            break
+                    x = lines[mid - 1]
+                    het = 'HETATM 9990 ZN    ZN Z 900    ' + x[30:54].replace(x[30:38], '%8.3f' % (float(x[30:38]) + 25.0), 1) + '  1.00  0.00          ZN  \n'
+                    lines = lines[:mid] + [het] + lines[mid:]
             if v == 'split':
                 # the last 40 records of the first selected chain are moved to the end of the file (after every other chain)
                 mine = [i for i, l in enumerate(lines) if l[:6] in ('ATOM  ', 'HETATM') and l[21] == sel[0]]
@@ -148,6 +163,17 @@ def bounded(pr):
                 except Exception as e:    # noqa
                     return {'error': [type(e).__name__]}
             a, b = run(lines, opts), run(deleted, [])
+            # the determinant table of the report (rows per chain) is part of what is compared
+            try:
+                import propka.output as _out
+                ma, mb = native.run_text(lines, opts), native.run_text(deleted, [])
+                ta = _out.get_determinant_section(ma, 'AVR', ma.version.parameters)
+                tb = _out.get_determinant_section(mb, 'AVR', mb.version.parameters)
+                if ta != tb and len(viol) < 3:
+                    viol.append({'what': '%s (%s) -c %s: the determinant section differs from that of the file with the other chains '
+                                         'deleted (%d vs %d lines)' % (name, v, s, len(ta.splitlines()), len(tb.splitlines())), 'replay': None})
+            except (Exception, SystemExit):      # noqa
+                pass
             d = native.diff_records(a, b, tol=1e-9) if 'error' not in a and 'error' not in b else ([] if a == b else ['%r vs %r' % (a, b)])
             if d and len(viol) < 3:
                 viol.append({'what': '%s (%s) -c %s differs from the file with the other chains deleted: %s' % (name, v, s, d[:2]),
